@@ -246,8 +246,10 @@ func (W) Exec(p *world.Plan, env *world.Env) {
 	func() {
 		defer func() {
 			if r := recover(); r != nil {
-				if _, ok := r.(world.Failure); !ok {
-					panic(r)
+				if _, ok := r.(world.Failure); !ok && !env.Failed() {
+					// a well-formed steady operation panicked inside goom (same rule as world hist)
+					env.Res.At = "steady setup"
+					env.FailNoUnwind("crash/panic", "unexpected panic while installing the steady mocks: %v", r)
 				}
 				failedSetup = true
 			}
